@@ -92,9 +92,10 @@ func rprop_dense_with_gradient(evalGradient DenseGradientF, x0 DenseFloat64Vecto
     if hook.Value != nil && hook.Value(gradient_new, step, x1, nil) {
       break;
     }
-    for {
+    for rejected := false;; {
       verifhook.Tick("rpropDense.backtrack")
       // update x
+      moved := false
       for i := 0; i < x1.Dim(); i++ {
         if gradient_new[i] != 0.0 {
           if gradient_new[i] > 0.0 {
@@ -106,6 +107,16 @@ func rprop_dense_with_gradient(evalGradient DenseGradientF, x0 DenseFloat64Vecto
         if math.IsNaN(x2.ConstAt(i).GetFloat64()) {
           return x2, fmt.Errorf("NaN value detected")
         }
+        if x2[i] != x1[i] {
+          moved = true
+        }
+      }
+      // trial points were rejected because the gradient could not be
+      // evaluated there and the steps were reduced until x2 does not
+      // differ from x1 anymore: no valid point is left to try (accepting
+      // x2 = x1 would repeat the same search forever)
+      if rejected && !moved {
+        return x1, fmt.Errorf("no valid point found: step sizes fell below the resolution of x")
       }
       // compute partial derivatives and update x
       if err := evalGradient(x2, gradient_new); err != nil {
@@ -113,6 +124,9 @@ func rprop_dense_with_gradient(evalGradient DenseGradientF, x0 DenseFloat64Vecto
       }
       if gradient_is_nan(gradient_new) ||
         (constraints.Value != nil && !constraints.Value(x2)) {
+        if gradient_is_nan(gradient_new) {
+          rejected = true
+        }
         // if the updated is invalid reduce step size
         for i := 0; i < x1.Dim(); i++ {
           if gradient_new[i] != 0.0 {
